@@ -85,7 +85,7 @@ def gen_cases(tier, seed):
         c = {"id": "c01-%s-%d" % (mode, idx), "inputrc": inputrc, "w": w, "h": rng.choice([24, 10, 6]),
              "prompt": rng.choice(["> ", "", "\x1b[32mλ\x1b[0m ", "a\nb $ "]),
              "sources": [{"name": "main", "kind": "mem", "lines": HISTORY if rng.random() < 0.8 else []}],
-             "comp": {"cands": CANDS, "byword": rng.random() < 0.5} if rng.random() < 0.8 else None,
+             "comp": {"cands": rng.choice([CANDS, CANDS, CANDS_DISP]), "byword": rng.random() < 0.5} if rng.random() < 0.8 else None,
              "setups": [], "sessions": [], "hangms": 10000}
         if rng.random() < 0.15:
             c["multiline"] = ";"
@@ -198,7 +198,41 @@ def gen_cases(tier, seed):
         case["sessions"].append(sess)
         cases.append(case)
     cases += by_name_cases(tier, rng)
+    cases += option_battery_cases(tier, rng)
     return cases
+
+
+def option_battery_cases(tier, rng):
+    """J: EVERY variable of the library, one at a time (thorough: also random pairs), against a fixed battery of short scripts that
+    touch each subsystem an option can influence: listing and cycling completions (with candidates displayed differently from what
+    they insert), history walks and searches with suggestions, brackets and quotes, kills, undo, multi-line, Vi modes"""
+    BATTERY_E = [[b"foo", b"\x1b?"], [b"foo", b"\x1b="], [b"fo", b"\t", b"\t", b"\x1b[Z"], [b"foo/usr/bin/l", b"\x1b?", b"\t"], [b"h", b"\t", b"\x1b?"],
+                 [b"a", b"\t", b"\x03"], [b"\t"], [b"fo", b"\t", b"\r"], [b"f", b"\x1b*"], [b"\x10", b"\x10", b"\x0e"], [b"fir", b"\x06", b"\x05"],
+                 [b"s", b"\x12", b"e", b"\r"], [b"(", b"a", b")", b"\x02", b"\x02", b"\x7f"], [b"(a [b] {c})", b"\x01", b"\x06", b"\x0b", b"\x19"],
+                 [b'"', b"x", b"\x7f", b"\x7f"], [b"ab cd", b"\x17", b"\x1f", b"\x1f"], [b"ab", b"\x1b[D", b"\x1b[D", b"(", b")"], [b"~/x", b"\t"],
+                 [b"abc;", b"\r"], [b"a\x16\nb", b"\x10", b"\x0e"], [b"x" * 30, b"\x01", b"\x0b"], [b"\x18\x18"], [b"ab", b"\x1b#"],
+                 [b"fo", b"\x1b/"], [b"a", b"\x18("], [b"q", b"\x1b\x7f"], [b"$(", b"\x1b?"], [b"{", b"}", b"\x02"], [b"x", b"\x04"], [b"\x0c"]]
+    BATTERY_V = [[b"foo", b"\x1b", b"0", b"x"], [b"fo", b"\t", b"\t", b"\x1b"], [b"(a [b])", b"\x1b", b"0", b"%", b"d%"], [b"(a) b", b"\x1b", b"0", b"dw", b"P"],
+                 [b"ab", b"\x1b", b"k", b"j"], [b"x", b"\x1b", b"v", b"l", b"y"], [b"a b", b"\x1b", b"0", b"cw", b"z", b"\x1b"], [b"a", b"\x1b", b"u", b"u"],
+                 [b"(", b"\x1b", b"i", b")", b"\x1b"], [b"[x]", b"\x1b", b"0", b"yi[", b"di[", b"ca["], [b"fo", b"\x1b", b"a", b"\t"],
+                 [b'"a"', b"\x1b", b"0", b'di"'], [b"ab", b"\x1b", b"0", b"r", b"(", b"~"], [b"a\x16\nb", b"\x1b", b"k", b"j", b"dd"], [b"\x1b", b"\r"]]
+    vars_ = [("set %s %s" % (v, "off" if d else "on")) for v, d in sorted(all_bool_vars().items())]
+    vars_ += ["set %s %s" % (v, x) for v, vals in OTHER_SETTINGS for x in vals]
+    sets = [[v] for v in vars_]
+    for _ in range(0 if tier == "quick" else 300):
+        sets.append(rng.sample(vars_, rng.choice([2, 2, 3])))
+    out = []
+    for i, st in enumerate(sets):
+        for mode in (("emacs", "vi") if tier == "thorough" else (("emacs",) if i % 3 else ("emacs", "vi"))):
+            c = {"id": "c01opt-%s-%d" % (mode, i), "inputrc": ("set editing-mode vi\n" if mode == "vi" else "") + "\n".join(st) + "\n",
+                 "w": rng.choice([80, 40, 20]), "h": rng.choice([24, 10]), "prompt": rng.choice(["> ", "a\nb $ "]),
+                 "sources": [{"name": "main", "kind": "mem", "lines": HISTORY}],
+                 "comp": {"cands": CANDS_DISP + CANDS, "byword": True}, "setups": [], "sessions": [], "hangms": 10000, "multiline": ";" if i % 5 == 0 else ""}
+            for sc in (BATTERY_E if mode == "emacs" else BATTERY_V):
+                c["setups"].append(setup("", 0, "emacs" if mode == "emacs" else "vi-insert"))
+                c["sessions"].append([SETUP_KEY] + [keys(k) for k in sc] + ([keys(b"\r")] if rng.random() < 0.5 else []))
+            out.append(c)
+    return out
 
 
 def by_name_cases(tier, rng):
@@ -225,7 +259,7 @@ def by_name_cases(tier, rng):
     out = []
     for k, irc in enumerate(["", random_inputrc(rng, "emacs", p=0.3).replace("set editing-mode vi\n", ""), "set history-autosuggest on\nset autopairs on\n"]):
         part = exps[k::3]
-        cs = p_c06.build_cases("c01n%d" % k, part, binds, seqs, rng, per_session=40, inputrc_for=irc, comp={"cands": CANDS, "byword": rng.random() < 0.5})
+        cs = p_c06.build_cases("c01n%d" % k, part, binds, seqs, rng, per_session=40, inputrc_for=irc, comp={"cands": rng.choice([CANDS, CANDS_DISP]), "byword": rng.random() < 0.5})
         for c in cs:
             c["hangms"] = 10000
             c["w"] = rng.choice([80, 40, 20])
